@@ -92,11 +92,21 @@ def unconfirmed(b):
     """{local index: writers not confirmed for (function, local name)}."""
     if b.derived:
         return {}
-    conf = CONFIRMED.get(b.name, {})
+    conf = dict(CONFIRMED.get(b.name, {}))
     byname = writes(b)
     out = {}
     if not byname:
         return out
+    # a confirmed local that was merely renamed: its old name is gone from the function, and exactly one new name has
+    # writers within the old name's confirmed set
+    present = set(b.debug_names.values())
+    gone = {m: w for m, w in conf.items() if m not in present and m != "<temp>"}
+    for nm in sorted(byname):
+        if nm in conf or nm == "<temp>":
+            continue
+        cands = [m for m, w in gone.items() if set(byname[nm]) <= set(w)]
+        if len(cands) == 1:
+            conf[nm] = gone.pop(cands[0])
     for l in range(1, len(b.locals)):   # by-value parameters included: `fn f(mut self) { self.v.clear(); .. }`
         nm = b.debug_names.get(l) or "<temp>"
         extra = sorted(set(byname.get(nm, [])) - set(conf.get(nm, [])))
